@@ -207,6 +207,17 @@ pub fn exec_fmt(case: &str, tag: &str, fmt: &str) -> Exec {
             Err(m) => { ex.failures.push(Failure::new("rendering-a-diagnostic-panicked", m).feat("diag", d.short_description())); }
             Ok(s) => if s.is_empty() { ex.failures.push(Failure::new("diagnostic-renders-empty", "")); },
         }
+        // ... and what the rendered text shows under a line number is the input line with that number
+        if fmt == "pdb" && text.is_ok() {
+            if let Ok(s) = guarded(|| format!("{}", d)) {
+                for (n, t) in rendered_numbered_lines(&s) {
+                    if n == 0 || lines.get(n - 1) != Some(&t) {
+                        ex.failures.push(Failure::new("rendered-diagnostic-shows-a-line-under-the-wrong-number", format!("line {} shown as {:?}", n, t.chars().take(40).collect::<String>())).feat("diag", d.short_description()));
+                        break;
+                    }
+                }
+            }
+        }
         // a diagnostic anchored to a line quotes the line that stands at the reported number
         if fmt == "pdb" && text.is_ok() {
             let mut q = Vec::new();
@@ -220,6 +231,21 @@ pub fn exec_fmt(case: &str, tag: &str, fmt: &str) -> Exec {
         }
     }
     ex
+}
+
+/// the `<number> │ <text>` lines of a rendered diagnostic
+pub fn rendered_numbered_lines(rendered: &str) -> Vec<(usize, String)> {
+    let mut out = Vec::new();
+    for l in rendered.split('\n') {
+        let digits: String = l.chars().take_while(|c| c.is_ascii_digit()).collect();
+        if digits.is_empty() { continue; }
+        let rest = &l[digits.len()..];
+        let rest = rest.trim_start_matches(' ');
+        if let Some(t) = rest.strip_prefix("│ ") {
+            if let Ok(n) = digits.parse::<usize>() { out.push((n, t.to_string())); }
+        }
+    }
+    out
 }
 
 /// a short stable label for the panic message (for the findings file)
